@@ -298,7 +298,7 @@ func (c *Ctx) judgeSuccess(h *History, o *Obs, g *GenSpec, add func(o *Obs, clas
 }
 
 var faultKinds = []string{"err", "create-then-err", "short", "partial-mkdir", "write-enospc", "crash-before", "crash-after", "crash-torn"}
-var stages = []string{"directive", "methoddirective", "signature", "conversion", "marker", "load", "render", "syntax", "generic"}
+var stages = []string{"directive", "methoddirective", "signature", "conversion", "marker", "load", "render", "syntax", "generic", "errorfield"}
 
 // C17Cases builds the fault enumeration for one layout spec.
 func C17Cases(c *Ctx, rng *rand.Rand, spec *LSpec, withDisk bool, nArgv int) ([]*History, error) {
